@@ -997,11 +997,21 @@ def literal_convert_family(sample=None, rnd=None):
     literal_sources() x word types (no flags); `sample`: fraction of the cross product (seeded by rnd)"""
     cterm = {ko: co for co, ko, _ in conv_types()}
     out = []
+    base = literal_sources()
     for co, ko, T in conv_types():
         if ko[0] == "flag":
             continue
-        for lit, _ in literal_sources():
-            if sample is not None and rnd.random() >= sample:
+        # always: the literals at the bounds of the target itself (Int literals; for decimal also the scaled bounds)
+        must = []
+        if ko[0] == "num":
+            lo, hi = (-(2**167), 2**167 - 1) if ko[3] else ((-(2**(8 * ko[1] - 1)), 2**(8 * ko[1] - 1) - 1) if ko[2] else (0, 2**(8 * ko[1]) - 1))
+            bs = [lo - 1, lo, hi, hi + 1] if not ko[3] else [lo // 10**10 - 1, -((-lo) // 10**10), hi // 10**10, hi // 10**10 + 1]
+            must = [str(v) for v in bs if -2**255 <= v < 2**256]
+            if not ko[3]:
+                must += [f"{hi}.0", f"{hi}.5", f"{hi + 1}.0", f"{lo}.0", f"{lo}.5" if lo < 0 else "-0.5", f"{lo - 1}.0"] if 8 * ko[1] <= 128 else []
+                must += ["0x" + "ff" * ko[1], "0x" + "80" + "00" * (ko[1] - 1), "0x" + "7f" + "ff" * (ko[1] - 1)] if ko[1] != 20 else []
+        for lit in must + [l_ for l_, _ in base]:
+            if lit not in must and sample is not None and rnd.random() >= sample:
                 continue
             r = literal_convert_one(lit, str(T))
             if r is None:
